@@ -303,14 +303,14 @@ def is_partition(el, sb):
 
 
 def drop_ignored_csi(s):
-    """Remove the CSI sequences the parser ignores: more than one intermediate (a private marker
-    counts as one) or more than 32 parameters."""
+    """Replace the CSI sequences the parser ignores (more than one intermediate - a private marker
+    counts as one - or more than 32 parameters) by a plain CSI sequence."""
     def f(m):
         t = m.group(0)[2:-1]
         params = t.rstrip(" !\"#$%&'()*+,-./")
         inter = len(t) - len(params) + (1 if params[:1] in "<=>?" and params else 0)
         nsep = params.count(";") + params.count(":")
-        return "" if inter > 1 or nsep >= 32 else m.group(0)
+        return "\x1b[0K" if inter > 1 or nsep >= 32 else m.group(0)
     return IGNORED_CSI_RE.sub(f, s)
 
 
